@@ -2,22 +2,27 @@
 C14 — Push-down hints offered to storage back-ends never lose required data.
 
 Model: `ForML.Model.PushDown` (the parser's per-table segments, `Predicate.Factors`, the `visit_*` traversal that
-offers the hints, and a row-level denotation run against a back-end that ignores / honours them), following the code
-as repaired by fixes/C14-pushdown-hints.diff.
+offers the hints, a row-level denotation run against a back-end that ignores / honours them, and `lazy._Columns`),
+following the code as repaired by fixes/C14-pushdown-hints.diff.
 
 * `C14_columns` (full): every `generate_table` call is offered every column its origin is used with in the query's
   clauses or in the condition of a join it takes part in — also through a reference to the table.
+  `C14_lazy_columns` (full): the same for the per-table column sets of `lazy._Columns`.
+  `C14_columns_equivalence`: restricting every scan to the offered columns never changes the result (any join kind).
 * `C14_factors`: every factor of a condition is a predicate over its table alone which is TRUE whenever the condition
   is (three-valued logic) — for AND, OR (tables constrained on both sides only), NOT and comparisons.
 * `C14_filter_full`: a back-end pre-filtering every scan by the offered filter returns what a back-end ignoring the
   hints returns.  Refuted twice (`…_counterexample_outer`: a factor of an ON condition pushed below the preserved side
-  of a LEFT JOIN; `…_counterexample_alias`: the filter of a table offered to the scan of its self-join reference);
-  `C14_filter_partial` proves it for statements without outer joins and without a table scanned both directly and
-  through a reference, for every semantics of the scalar operators, aggregation, ordering, limits and set operators.
+  of a LEFT JOIN; `…_counterexample_alias`: the filter of a table offered to the scan of its self-join reference).
+  `C14_filter_partial`: proved for statements without outer joins and without a table scanned both directly and through
+  a reference; `C14_filter_partial_outer`: also with outer joins whose ON condition yields no factor and whose
+  NULL-supplying side is offered no factor from above — for every semantics of the scalar operators, aggregation,
+  ordering, limits and set operators.  `C14_equivalence_partial(_outer)`: columns and filter together.
 -/
 import ForML.Lemmas.C14Filter
 import ForML.Lemmas.C14Proj
 import ForML.Lemmas.C14Lazy
+import ForML.Lemmas.C14Outer
 
 namespace ForML.PushDown
 open ForML.Dsl
@@ -110,10 +115,36 @@ theorem C14_filter_contributes (len : Bool) (S : Sem) (db : Db) (src : Source) (
     (within_queryCtx len none src sel pre grp post ord hw.1.1.2)
     (justified_queryCtx len none src sel pre grp post ord (origins src))
 
+/-- statements without outer joins are `outerSafe` -/
+theorem C14_outerSafe_of_innerOnly (len : Bool) : ∀ (s : Source) (P : List Feature), innerOnly s = true → outerSafe len P s = true
+  | .table _ _, _, _ => rfl
+  | .ref i _, _, h => by
+    simp only [innerOnly] at h
+    simpa [outerSafe] using C14_outerSafe_of_innerOnly len i [] h
+  | .join l r k c, P, h => by
+    simp only [innerOnly, Bool.and_eq_true, Bool.or_eq_true, beq_iff_eq] at h
+    rcases h.1.1 with rfl | rfl <;>
+      simp [outerSafe, C14_outerSafe_of_innerOnly len l _ h.1.2, C14_outerSafe_of_innerOnly len r _ h.2]
+  | .set l r _, _, h => by
+    simp only [innerOnly, Bool.and_eq_true] at h
+    simp [outerSafe, C14_outerSafe_of_innerOnly len l [] h.1, C14_outerSafe_of_innerOnly len r [] h.2]
+  | .query src _ pre _ _ _ _, _, h => by
+    simp only [innerOnly] at h
+    simpa [outerSafe] using C14_outerSafe_of_innerOnly len src (optList pre) h
+
+/-- **C14 (filter), proved part with outer joins**: the outer joins of the statement are harmless (`outerSafe`: their
+ON conditions yield no single-table factor and no table on a NULL-supplying side is offered a factor of a condition
+above the join) and no table is scanned both directly and through a reference. Generalises `C14_filter_partial`. -/
+theorem C14_filter_partial_outer (len : Bool) (S : Sem) (db : Db) (s : Source) (hs : isStmt s = true)
+    (ho : outerSafe len [] s = true) (hw : wellScoped s = true) :
+    result len S .honourRows db s = result len S .ignore db s := by
+  unfold result
+  rw [(run_prune_outer len S db s hw).2 hs ho {}]
+
 /-! ### columns and filter together -/
 
 /-- the concrete semantics used for the witnesses and the SQLite tie is local -/
-theorem simpleSem_finishLocal : FinishLocal simpleSem := by
+theorem C14_simpleSem_finishLocal : FinishLocal simpleSem := by
   intro src sel pre grp post ord rows envs' envs h
   simp only [simpleSem, simpleFinish]
   induction h with
@@ -137,14 +168,23 @@ theorem C14_equivalence_partial (len : Bool) (S : Sem) (db : Db) (s : Source) (h
     result len S .honour db s = result len S .ignore db s := by
   rw [← C14_filter_partial len S db s hs hi hw]
   unfold result
-  rw [honour_eq_proj, (run_proj len S .honourRows db hS s hi hw).2 hs {}]
+  rw [honour_eq_proj, (run_proj len S .honourRows db hS s (shaped_of_wellScoped s hw)).2 hs {}]
 
-/-- the column restriction alone -/
-theorem C14_columns_equivalence_partial (len : Bool) (S : Sem) (db : Db) (s : Source) (hS : FinishLocal S)
-    (hs : isStmt s = true) (hi : innerOnly s = true) (hw : wellScoped s = true) :
+/-- **C14 (columns, semantically).** The column restriction alone never changes the result: any join kind, self-joins
+through references included; only the shape every constructible statement has is assumed. -/
+theorem C14_columns_equivalence (len : Bool) (S : Sem) (db : Db) (s : Source) (hS : FinishLocal S)
+    (hs : isStmt s = true) (hw : shaped s = true) :
     result len S .honourCols db s = result len S .ignore db s := by
   unfold result
-  rw [honourCols_eq_proj, (run_proj len S .ignore db hS s hi hw).2 hs {}]
+  rw [honourCols_eq_proj, (run_proj len S .ignore db hS s hw).2 hs {}]
+
+/-- columns and filter together, with harmless outer joins -/
+theorem C14_equivalence_partial_outer (len : Bool) (S : Sem) (db : Db) (s : Source) (hS : FinishLocal S)
+    (hs : isStmt s = true) (ho : outerSafe len [] s = true) (hw : wellScoped s = true) :
+    result len S .honour db s = result len S .ignore db s := by
+  rw [← C14_filter_partial_outer len S db s hs ho hw]
+  unfold result
+  rw [honour_eq_proj, (run_proj len S .honourRows db hS s (shaped_of_wellScoped s hw)).2 hs {}]
 
 /-! ### witnesses -/
 
@@ -183,6 +223,26 @@ theorem C14_filter_counterexample_alias : ¬ C14_filter_full := by
 /-- each hypothesis of the partial theorem excludes exactly one of the witnesses -/
 example : innerOnly wOuter = false ∧ wellScoped wOuter = true := by decide
 example : innerOnly wAlias = true ∧ wellScoped wAlias = false := by decide
+/-- the column theorem covers both witnesses -/
+example : shaped wOuter = true ∧ shaped wAlias = true := by decide
+
+/-- `SELECT A.x, B.z FROM A LEFT JOIN B ON A.x = B.z WHERE A.x > 1`: the usual shape of a left join is in the proved
+fragment (the preserved side is offered `A.x > 1`, the NULL-supplying side nothing) -/
+def wLeftOk : Source :=
+  .query (.join tA tB .left (.some (binop .eq xA (.elem tB "z")))) (.cons xA (.cons (.elem tB "z") .nil)) (.some (gt1 xA))
+    .nil .none .nil none
+
+/-- `… WHERE B.z IS NULL`: the NULL-supplying side would be offered `B.z IS NULL` -/
+def wLeftIsNull : Source :=
+  .query (.join tA tB .left (.some (binop .eq xA (.elem tB "z")))) (.cons xA .nil)
+    (.some (.expr .isnull (.cons (.elem tB "z") .nil))) .nil .none .nil none
+
+example : outerSafe false [] wLeftOk = true ∧ wellScoped wLeftOk = true ∧ innerOnly wLeftOk = false ∧
+    (hints false wLeftOk).toOption.map (fun hs => hs.map (fun h => h.pred.length)) = some [1, 0] := by decide
+example : outerSafe false [] wOuter = false ∧ outerSafe false [] wLeftIsNull = false := by decide
+/-- the IS NULL statement really loses the equivalence: `A = {1}`, `B = {1}` gives no row, pre-filtered `B = {}` gives one -/
+example : result false simpleSem .honourRows (fun t => if t = tA then [[("x", .int 1)]] else [[("z", .int 1)]]) wLeftIsNull
+    ≠ result false simpleSem .ignore (fun t => if t = tA then [[("x", .int 1)]] else [[("z", .int 1)]]) wLeftIsNull := by decide
 
 /-! ### non-vacuity -/
 
